@@ -565,6 +565,11 @@ def rgs_flags(a, b):
 
 SUITES = {"lattice": suite_lattice, "decimal": suite_decimal, "irregular": suite_irregular,
           "frames": suite_frames, "index_labels": suite_index_labels, "rgs": suite_rgs}
+# stream F: the segment fixture files (real boundary grids and label vocabularies), lattice and 0.1 s frames
+from suites import fixtures as _FX  # noqa: E402
+if "segment_frames" in _FX.SUITES:
+    SUITES["fixtures.segment_frames"] = _FX.SUITES["segment_frames"]
+RULE += "; " + _FX.RULE_NOTE
 
 
 # ----------------------------------------------------------------------------------------
@@ -858,7 +863,7 @@ ORACLES = {site: _oracle_gen(site) for site in CHECKERS}
 
 def classify(suite, d):
     """Map a disagreeing case on *valid* input to (site, oracle input); other suites have no oracle."""
-    if suite not in ("lattice", "decimal", "rgs"):
+    if suite not in ("lattice", "decimal", "rgs", "fixtures.segment_frames"):
         return None
     i = d.get("info") or {}
     op = i.get("op")
